@@ -822,7 +822,9 @@ pub fn audio_frame(cfg: &CfgGene, g: &AGene, idx: usize) -> (Vec<u8>, Vec<u8>) {
         let ag = AdtsGene {
             protection_absent: g.shape & 1 != 0,
             profile: (g.shape >> 1) & 3,
-            sfi: cfg.rate_idx % 13,
+            // a quarter of the configurations carry the CORE rate in their ADTS headers - half the configured output rate, as
+            // implicitly signalled HE-AAC streams do (the muxer is configured with the rate the caller states, not the header's)
+            sfi: if cfg.channels % 4 == 1 && cfg.rate_idx % 13 + 3 < 13 { cfg.rate_idx % 13 + 3 } else { cfg.rate_idx % 13 },
             chan: (cfg.channels % 6),
             payload_len: size.min(8000),
             extra: if g.shape & 8 != 0 { 3 } else { 0 },
